@@ -134,16 +134,16 @@ CLAIMS = {
 
 # additions of the third working round (appended to the claim text / technique of each property)
 ADDENDA = {
-    "C01": (" Third round: the graph passes are evaluated on block graphs built from the repository's own block classes (interpreted): NormalizeBlocks and flattenBlocks preserve the bounded executions of branch/loop/empty-block shaped graphs (flat code read by a small reference machine); compileSubroutine puts the deferred code before every retsub, appends the implicit return and closes the call graph; every control construct, built through its own constructor/builder methods and lowered by its own __teal__, has exactly the executions of an independent reference CFG; isTerminal over all terminator positions.", "; trace equivalence of interpreted graph passes / construct lowerings against reference machines"),
+    "C01": (" Third round: the graph passes are evaluated on block graphs built from the repository's own block classes (interpreted): NormalizeBlocks and flattenBlocks preserve the bounded executions of branch/loop/empty-block shaped graphs (flat code read by a small reference machine); compileSubroutine puts the deferred code before every retsub, appends the implicit return and closes the call graph; every control construct, built through its own constructor/builder methods and lowered by its own __teal__, has exactly the executions of an independent reference CFG; isTerminal over all terminator positions. Seventh round: the field tables (R04.2: name, type and minimum version of every field row against the AVM reference) are part of the claim.", "; trace equivalence of interpreted graph passes / construct lowerings against reference machines"),
     "C02": (" Third round: findRecursionPoints on all 3-node call graphs and sampled 4/5-node graphs; slot classification over routine-subset families; frame-pointer routines with body-allocated locals (deferred frame_bury 0); probe handler for recursive ABI subroutines. Sixth round: the context in which the scratch convention creates an ABI output value; the spill worlds model a routine's statements as ops.", "; exhaustive small-graph enumeration"),
-    "C03": (" Third round: both calling conventions (R02.2) and the allocator (R10.1) are part of the option-independence argument; slot classification families; dependency scan with loads before the pair.", ""),
+    "C03": (" Third round: both calling conventions (R02.2) and the allocator (R10.1) are part of the option-independence argument; slot classification families; dependency scan with loads before the pair. Seventh round: the ScratchSlot constructor sets isReservedSlot for every requested id, 0 included (R10.2).", ""),
     "C04": (" Third round: slot-count limit with requested slots, flattenBlocks label discipline decided on flattened graphs, isTerminal, one-line comment ops (shared rules).", ""),
     "C05": (" Third round: ScratchVar and FrameVar (the two AbstractVar implementations) are interpreted from their class definitions and must refuse exactly the values the reference relation refuses; skip-set and prologue rules shared in. Fourth round: If chains built through the repository's own Then/ElseIf/Else methods are typed like the positional form (found and fixed a defect); asset/app/holding accessors agree with their field tables. Fifth round: every control construct and every operator factory is built from operands of each type and what is accepted (construction and lowering together) is compared with the discipline - found and fixed Eq/Neq over operands that leave nothing.", "; sibling cross-check of interpreted classes"),
     "C06": (" Third round: reference types in the descriptor universe; optimiser dependency scan and exception-safe proto restore shared in.", ""),
     "C07": (" Third round: Substring/Extract/Suffix lowering evaluated for every version and operand range and read as byte ranges under the AVM meaning of extract/extract3/substring/substring3; all member sequences between two dynamic members; ABI-layer global-state inventory. Later rounds: named-field positions of NamedTuple (R07.9); element access with compile-time constant indices (R07.3).", "; denotational comparison of slice terms"),
     "C08": (" Third round: Router.method keyword semantics over all assignments of {omitted, NEVER, CALL, CREATE, ALL}; build / register / build history; named-integer table (resolved through the SDK source if not literal).", ""),
     "C09": (" Third round: ownership of the Method object renamed by the router (method_spec returns a fresh object); reference-type descriptors; named-integer table.", "; ownership/escape rule"),
-    "C10": (" Third round: slot classification families.", ""),
+    "C10": (" Third round: slot classification families. Seventh round: duplicate requested ids are refused for every placement of the two variables (main, subroutine-local, shared between routines).", ""),
     "C11": (" Third round: hash-order rule extended to pyteal.ast and to set algebra on dict views.", ""),
     "C12": (" Third round: same operand text under different pseudo-ops, signatures differing in blanks (injective digest stand-in), templates ranked below the top four, op attribution and one op object per site; Op table spelling.", ""),
     "C13": (" Third round: module-level hoisted patterns are resolved; the constants pass (R12.1) is part of the literal round trip.", ""),
